@@ -34,6 +34,8 @@ func runC04(c *Ctx) {
 	c.rule("publish-after-store", "the updatesChan send, the nil answer on the reply channel and the new-config event are dominated by the store", 3)
 	c.rule("reject-reports", "on each reject branch every path to the return submits a watchErrorEvent{err: tested error, oldConfig: View(), newConfig: derived from the compose result} and, when the reply channel is non-nil, sends the same error on it; no store is reachable", 6)
 	c.rule("blocking-returns-error", "BlockingReportNewValue returns nil only after receiving nil from the reply channel and otherwise returns an error wrapping what it received", 2)
+	c.rule("skip-flag", "the flag that lets a re-stack skip Verify is initialised from DelayInitialVerification alone and otherwise only assigned the negated result of the enable helper (so SkipInitialVerification or any other state can never switch off verification of later updates)", 2)
+	c.rule("cbloop-drains", "the callback goroutine returns only after finding the callback queue empty, so a queued error event for a rejected update is delivered unless the queue overflowed", 1)
 	c.rule("callbacks-see-published", "arguments of every handler call derive only from fields of the event being processed (or the callback goroutine's record of the last announced version)", 4)
 
 	k := loadCore(c)
@@ -99,6 +101,9 @@ func runC04(c *Ctx) {
 
 	// ---- blocking-returns-error -------------------------------------------
 	c04Blocking(c, k)
+
+	k.checkSkipFlag("skip-flag")
+	k.checkCbLoopDrains("cbloop-drains")
 
 	// ---- callbacks-see-published -------------------------------------------
 	c04HandlerArgs(c, k)
